@@ -199,3 +199,13 @@ Definition alpha := [97; 108; 112; 104; 97].
 Definition beta := [98; 101; 116; 97].
 Definition rc := [114; 99].
 Definition prerelease_words : list (list byte) := [snap; pre; alpha; beta; rc].
+
+(* the three character classes of CHAR_CLASS_MATCH *)
+Definition same_class (a b : byte) : bool :=
+  (isalpha a && isalpha b) || (isdigit a && isdigit b) || (ispunct' a && ispunct' b).
+(* t does not continue the last run of V: t starts a new run (or one of them is empty) *)
+Definition sep (V t : list byte) : Prop := t = [] \/ V = [] \/ same_class (last V 0) (hd 0 t) = false.
+Definition nodigit (X : list byte) : Prop := X = [] \/ isdigit (hd 0 X) = false.
+Definition noalpha (X : list byte) : Prop := X = [] \/ isalpha (hd 0 X) = false.
+(* begins, case-insensitively, with one of the words that rank a suffix below the bare version *)
+Definition begins_below (t : list byte) : bool := existsb (beg_ci t) [snap; pre; alpha; beta].
